@@ -53,6 +53,9 @@ func Gdef(k int) (*gdef.Table, string) {
 		return &gdef.Table{GlyphClass: classes}, "classes"
 	case 2:
 		return nil, "none"
+	case 4:
+		// glyph classes outside the defined range 1..4 (the reader delivers any 16-bit value)
+		return &gdef.Table{GlyphClass: classdef.Table{GA: 5, GB: 0xFFFF, GL: gdef.GlyphClassLigature, GM: gdef.GlyphClassMark, GN: 6}}, "undefined classes"
 	default:
 		return &gdef.Table{GlyphClass: classes, MarkAttachClass: classdef.Table{GM: 1, GN: 2}}, "classes+attach"
 	}
@@ -188,6 +191,14 @@ var GposSimple = []Simple{
 			Mark2Cov:   cov(GM),
 			Mark1Array: []markarray.Record{{Class: 0, Table: anchor.Table{X: 1, Y: 2}}},
 			Mark2Array: [][]anchor.Table{{{X: 30, Y: 40}}},
+		}}
+	}},
+	{"GPOS6.1 N (class 1) on M, which has an anchor for class 0 only", 6, func() []gtab.Subtable {
+		return []gtab.Subtable{&gtab.Gpos6_1{
+			Mark1Cov:   cov(GN),
+			Mark2Cov:   cov(GM),
+			Mark1Array: []markarray.Record{{Class: 1, Table: anchor.Table{X: 1, Y: 2}}},
+			Mark2Array: [][]anchor.Table{{{X: 30, Y: 40}, {}}},
 		}}
 	}},
 	{"GPOS3.1 cursive A,B,M", 3, func() []gtab.Subtable {
